@@ -12,6 +12,7 @@
 -/
 import Gobptree.Proofs.ConcReach
 import Gobptree.Proofs.CSFinal
+import Gobptree.Proofs.CClean
 
 namespace Gobptree.Conc
 open Gobptree
@@ -97,6 +98,31 @@ theorem C09_then_completes (P : Params K) (tree : Tree K V) (progs : List (List 
   let hinv := reachable_cinv P tree progs ht ho hp hd hdel c hr
   ranked_not_deadlocked (posRank c.tree) c hinv.s.owner (sinv_ranked c hinv.s) hfin hu
 
+/-- **C09 (afterwards EVERY operation completes; nothing is left behind).** For programs that
+    close their cursors (`Closing`: the static form of "Close is eventually called"; it may be
+    called at any position and more than once), from any reachable configuration — after any
+    operations, whatever paths they took — every schedule extended until nothing is enabled ends,
+    within `termBound c` steps, with every operation of every thread returned, the owner table
+    empty and every thread's held list empty. -/
+theorem C09_all_complete_nothing_held (P : Params K) (tree : Tree K V) (progs : List (List (COp K V)))
+    (ht : TreeOk none tree) (ho : tree.order = P.order) (hp : PadOk P)
+    (hcl : Closing progs) (hdel : 4 ≤ tree.order ∨ NoDelete progs)
+    (c : Config K V) (hr : Reachable (Config.init P tree progs) c)
+    (ts : List Nat) (c' : Config K V) (hrun : c.run ts = (c', none)) (hstuck : c'.enabledSet = []) :
+    ts.length ≤ termBound c ∧ c'.unfinished = false ∧ c'.owner = [] ∧ ∀ th ∈ c'.threads, th.held = [] :=
+  ⟨executions_bounded_explicit P tree progs ht ho hp hcl.disciplined hdel c hr ts c' hrun,
+   all_operations_return_closing P tree progs ht ho hp hcl hdel c hr ts c' hrun hstuck,
+   nothing_held_at_end P tree progs ht ho hp hcl hdel c hr ts c' hrun hstuck⟩
+
+/-- a thread that has run off the end of a closing program holds no mutex, in EVERY reachable
+    configuration (not only at the end) -/
+theorem C09_finished_thread_holds_nothing (P : Params K) (tree : Tree K V) (progs : List (List (COp K V)))
+    (ht : TreeOk none tree) (ho : tree.order = P.order) (hp : PadOk P) (hcl : Closing progs)
+    (hdel : 4 ≤ tree.order ∨ NoDelete progs)
+    (c : Config K V) (hr : Reachable (Config.init P tree progs) c) :
+    ∀ th ∈ c.threads, th.park = .finished → th.held = [] :=
+  reachable_finishedClean P tree progs ht ho hp hcl hdel c hr
+
 end Gobptree.Conc
 
 #print axioms Gobptree.Conc.C09_held_by_position
@@ -106,3 +132,5 @@ end Gobptree.Conc
 #print axioms Gobptree.Conc.C09_between_calls
 #print axioms Gobptree.Conc.C09_held_by_position_always
 #print axioms Gobptree.Conc.C09_then_completes
+#print axioms Gobptree.Conc.C09_all_complete_nothing_held
+#print axioms Gobptree.Conc.C09_finished_thread_holds_nothing
